@@ -96,7 +96,9 @@ RtBad(ln) ==
     LET src == MeshOf(cur.src)
         o == cur.opts
         f == ln.file
-        wf == ln.wr = "OK" /\ WellFormedFile(f, cur.mode) /\ Denotable(f) /\ Representable(f, cur.mode, cur.D)
+        wf0 == ln.wr = "OK" /\ WellFormedFile(f, cur.mode) /\ Denotable(f)
+        \* a correct file of this case stays on the case's lattice and inside the int32 budget
+        wf == wf0 /\ Representable(f, cur.mode, cur.D)
         d == Denote(f, cur.mode, cur.D)
         res == MeshOf(ln.mesh)
         exact == cur.mode = "lat" => ln.mesh.exact
@@ -105,7 +107,8 @@ RtBad(ln) ==
         fileok == wf /\ RoundTrip(src, d, o, cur.mode, cur.D) /\ (cur.mode = "lat" => f.exact)
         ascii == ln.fmt = "ascii"
     IN  (IF ln.wr # "OK" THEN {B("C04.WriteOk", {ln.wr}, {})} ELSE {})
-        \cup (IF ln.wr = "OK" /\ ~wf THEN {B("C04.WellFormedFile", {IF f.ok THEN "layout" ELSE f.err}, {})} ELSE {})
+        \cup (IF ln.wr = "OK" /\ ~wf0 THEN {B("C04.WellFormedFile", {IF f.ok THEN "layout" ELSE f.err}, {})} ELSE {})
+        \cup (IF wf0 /\ ~wf THEN {B("C04.FileDenotes", {"out-of-range"}, {})} ELSE {})
         \cup (IF ln.wr = "OK" /\ f.ok /\ f.fmt # ln.fmt THEN {B("C04.FormatWritten", {f.fmt}, {})} ELSE {})
         \cup (IF wf /\ ~fileok
               THEN LET diff == RoundTripDiff(src, d, o, cur.mode, cur.D)
